@@ -166,6 +166,7 @@ fn main() {
             }
             "S" => {
                 let src = hex_to_string(rest);
+                let started = std::time::Instant::now();
                 match catch(|| lex(&src)) {
                     Err(_) => format!("{}\tL=PANIC\t-", line),
                     Ok(Err(_)) => format!("{}\tL=ERR\t-", line),
@@ -177,7 +178,8 @@ fn main() {
                             .map(|(i, t)| LexerToken::new(t.get_text().clone(), t.get_token_type(), 1, i))
                             .collect();
                         let r = run_tokens(&tokens);
-                        format!("{}\tL=ok {}\ttoks={}", line, r, idx.iter().map(|x| x.to_string()).collect::<Vec<_>>().join(","))
+                        let us = started.elapsed().as_micros();
+                        format!("{}\tL=ok {}\ttoks={};us={}", line, r, idx.iter().map(|x| x.to_string()).collect::<Vec<_>>().join(","), us)
                     }
                 }
             }
